@@ -271,8 +271,11 @@ def execute(R, op, tmp, opened=None):
             declared.update([src, dest])
             argv = [a.replace('{src}', src).replace('{dest}', dest)
                     for a in op['argv']]
-            rc = run_cli(R, argv)
+            rc, printed = run_cli(R, argv, True)
             outs = {}
+            if op.get('stdout'):
+                # the analyses print their result
+                outs['<stdout>'] = printed
             for p in sorted(os.listdir(tmp)):
                 full = os.path.join(tmp, p)
                 if full == dest or full.startswith(dest + '.'):
@@ -292,18 +295,19 @@ def execute(R, op, tmp, opened=None):
             opened.update(declared)
 
 
-def run_cli(R, argv):
+def run_cli(R, argv, want_stdout=False):
     """H7: the real command-line path in this process."""
     old = sys.argv
     sys.argv = [os.path.join(R.root, 'treetools')] + list(argv)
     try:
-        with _captured():
+        with _captured() as (so, se):
             try:
                 runpy.run_path(os.path.join(R.root, 'treetools'),
                                run_name='__main__')
-                return 0
+                rc = 0
             except SystemExit as e:
-                return e.code if e.code is not None else 0
+                rc = e.code if e.code is not None else 0
+        return (rc, so.getvalue()) if want_stdout else rc
     finally:
         sys.argv = old
 
